@@ -34,7 +34,7 @@ func (c17) Rule() string {
 		"Oracle: WriteSeq returns no error; the bytes written for each record are '>'+desc+LF followed by the residues in lines of exactly 70 columns (last line shorter), each ended by one LF (zero residues: empty line or nothing; exact multiple of 70: an extra blank line is tolerated); reading the LF text and the CRLF twin yields exactly k records, in order, each with the same description and the same residues when looked at after the whole stream was scanned, and Err()==nil; for GenBank inputs desc == Version + [':'(head+1)'-'tail] + ' ' + Definition and residues == the record's residues. " +
 		"Outside the quantifier and never generated: descriptions/versions/definitions containing LF or CR, residues containing '>' or white space, wrap-around slices. " +
 		"CLI layer: gts clear|reverse|complement|select gene|sort -F fasta --no-cache on streams of 1..3 generated GenBank records (lengths on the 70-column boundaries; CONTIG-only records for clear): the text is one FASTA record per input record with description VERSION+' '+DEFINITION and the residues the command implies in the exact layout, and fed back through gts clear -F fasta reads back the same; with -o name.{gb,genbank,fasta,txt,} the file holds the same bytes; for the other record-writing subcommands (delete, extract, rotate, split, insert, define, search, join, select, pick, sort) -F fasta prints well-formed FASTA, -F genbank prints GenBank, and -o writes exactly what stdout would get, whatever the extension; every third case also with the cache on. " +
-		"non-trivial: the stream has >= 2 records or a record longer than one line (n > 70); distinct: canonical case text (kinds, descriptions, lengths, residue generator parameters, writer)."
+		"non-trivial: the stream has >= 2 records or a record longer than one line (n > 70); distinct: canonical case text (kinds, descriptions, lengths, residue generator parameters, writer). A third of the genbank / genbank-region values are the reader's value of the record's own flat-file text: LF, CRLF, and with secondary accessions in front of REGION."
 }
 
 func (c17) RequiredBuckets(tier string) []string {
@@ -126,6 +126,10 @@ type c17rec struct {
 	clen   int  // genbank-contig: length of the CONTIG region (the record holds no residues)
 	pre2   int  // genbank-slice2: residues of the first slice in front of the second one
 	post2  int  // genbank-slice2: residues of the first slice after the second one
+	// genbank, genbank-region: the value handed to the writer was read from
+	// the record's flat-file text: 1 LF, 2 CRLF, 3 LF with secondary accessions
+	// in front of REGION, 4 CRLF with secondary accessions (0: built in memory).
+	via int
 }
 
 func c17gen(mode string, param int64, n int) []byte {
@@ -205,18 +209,20 @@ func (r *c17rec) enc() string {
 	res := fmt.Sprintf("n=%d res=%s:%d", r.n, r.gmode, r.gparam)
 	switch r.kind {
 	case "genbank":
-		return fmt.Sprintf("{genbank ver=%q def=%q %s}", r.ver, r.def, res)
+		return fmt.Sprintf("{genbank ver=%q def=%q %s%s}", r.ver, r.def, res, c17ViaName[r.via])
 	case "genbank-contig":
 		return fmt.Sprintf("{genbank-contig (no ORIGIN block, CONTIG join(ACC17.1:%d..%d)) ver=%q def=%q}", r.head+1, r.head+r.clen, r.ver, r.def)
 	case "genbank-slice2":
 		return fmt.Sprintf("{genbank-slice-of-a-slice ver=%q def=%q parent=%d first=[%d,%d) second=[%d,%d) of the first %s}", r.ver, r.def, r.pre+r.pre2+r.n+r.post2+r.post, r.pre, r.pre+r.pre2+r.n+r.post2, r.pre2, r.pre2+r.n, res)
 	case "genbank-region":
-		return fmt.Sprintf("{genbank-region ver=%q def=%q region=Segment{%d,%d} %s}", r.ver, r.def, r.head, r.head+r.n, res)
+		return fmt.Sprintf("{genbank-region ver=%q def=%q region=Segment{%d,%d} %s%s}", r.ver, r.def, r.head, r.head+r.n, res, c17ViaName[r.via])
 	case "genbank-slice":
 		return fmt.Sprintf("{genbank-slice ver=%q def=%q parent=%d slice=[%d,%d) negative-indices=%v %s}", r.ver, r.def, r.pre+r.n+r.post, r.pre, r.pre+r.n, r.neg, res)
 	}
 	return fmt.Sprintf("{%s desc=%q %s}", r.kind, r.desc, res)
 }
+
+var c17ViaName = []string{"", " read from its LF text", " read from its CRLF text", " read from its LF text with secondary accessions", " read from its CRLF text with secondary accessions"}
 
 func c17genbank(ver, def string, res []byte) seqio.GenBank {
 	f := seqio.GenBankFields{
@@ -247,11 +253,11 @@ func (r *c17rec) build() gts.Sequence {
 	case "basic-stringer":
 		return gts.New(c17Stringer{r.desc}, nil, res)
 	case "genbank":
-		return c17genbank(r.ver, r.def, res)
+		return c17viaText(c17genbank(r.ver, r.def, res), r.via)
 	case "genbank-region":
 		gb := c17genbank(r.ver, r.def, res)
 		gb.Fields.Region = gts.Segment{r.head, r.head + r.n}
-		return gb
+		return c17viaText(gb, r.via)
 	case "genbank-slice2":
 		L := r.pre + r.pre2 + r.n + r.post2 + r.post
 		parent := c17genbank(r.ver, r.def, c17gen(r.gmode, r.gparam, L))
@@ -271,6 +277,46 @@ func (r *c17rec) build() gts.Sequence {
 		return gts.Slice(parent, r.pre, r.pre+r.n)
 	}
 	panic("c17: unknown kind " + r.kind)
+}
+
+// c17viaText hands back the record as the reader delivers it from the record's
+// own flat-file text (a pipeline's second command sees records that way). The
+// plain LF text must read back with the same version, definition, region and
+// residues (else the record is outside what the text form carries, which is
+// C01's subject, and the in-memory value is used); the variants - CRLF line
+// ends, secondary accessions in front of REGION - name the same record.
+func c17viaText(gb seqio.GenBank, via int) gts.Sequence {
+	if via == 0 {
+		return gb
+	}
+	text := gb.String()
+	read := func(t string) (seqio.GenBank, bool) {
+		sc := seqio.NewAutoScanner(strings.NewReader(t))
+		if !sc.Scan() {
+			return seqio.GenBank{}, false
+		}
+		v, ok := sc.Value().(seqio.GenBank)
+		return v, ok
+	}
+	plain, ok := read(text)
+	if !ok || plain.Fields.Version != gb.Fields.Version || plain.Fields.Definition != gb.Fields.Definition ||
+		fmt.Sprint(plain.Fields.Region) != fmt.Sprint(gb.Fields.Region) || !bytes.Equal(plain.Bytes(), gb.Bytes()) {
+		return gb
+	}
+	if via >= 3 {
+		if !strings.Contains(text, "\nACCESSION   ACC17") {
+			return gb
+		}
+		text = strings.Replace(text, "\nACCESSION   ACC17", "\nACCESSION   ACC17 AB000001 AB000002", 1)
+	}
+	if via == 2 || via == 4 {
+		text = strings.ReplaceAll(text, "\n", "\r\n")
+	}
+	v, ok := read(text)
+	if !ok {
+		return gts.New("the reader rejects the record's own text (variant "+fmt.Sprint(via)+")", nil, nil)
+	}
+	return v
 }
 
 type c17got struct {
@@ -703,12 +749,15 @@ func c17randRec(r *rand.Rand, maxLen int) c17rec {
 		rec.post = 0
 	}
 	rec.neg = rec.post > 0 && r.Intn(3) == 0
+	via := []int{0, 0, 0, 1, 2, 3, 4}[r.Intn(7)]
 	// normalise the fields the kind does not use (canonical case text).
 	switch rec.kind {
 	case "genbank":
 		rec.desc, rec.head, rec.pre, rec.post, rec.neg = "", 0, 0, 0, false
+		rec.via = via
 	case "genbank-region":
 		rec.desc, rec.pre, rec.post, rec.neg = "", 0, 0, false
+		rec.via = via
 	case "genbank-slice":
 		rec.desc, rec.head = "", 0
 	default:
